@@ -324,6 +324,12 @@ def gen_event(rng, profile, tags, graph, hands, holding, nextw, outs_of, vid, N)
         if oc == 3 and rng.random() > 0.05:
             p = rng.choice([0.0, 0.3, 0.6, 1.0])
             vals = [[t, vid[v], rng.random() < p] for v in outs_of[tags[x]]]
+            if vals and rng.random() < 0.3:
+                # an algorithm that updates its data set more than once in one
+                # run (Dataset.update: "intermediate data") reports a value
+                # again, the second time with the flag of the second write
+                extra = [[t, vn, rng.random() < 0.3] for (_t, vn, _f) in rng.sample(vals, rng.randint(1, len(vals)))]
+                vals = vals + extra if rng.random() < 0.7 else extra + vals
         return ['rep', w, x, t, rid, oc, vals]
     if k == 'reg':
         nextw[0] += 1
